@@ -1166,6 +1166,8 @@ int main(int argc, char **argv)
         Case const &c = cs[i];
         std::string conf = case_config(c);
         reset_workdir(wd);
+        if (shard == 0 && (i / nsh) % 500 == 0)
+          fprintf(stderr, "  %s: %zu/%zu (%.0fs)\n", phase.c_str(), i, cs.size(), now() - t_start);
         Outcome o = run_child([&]() { return child_body(conf, true); }, T_CASE, RSS_CAP_MB);
         r.count("evaluations");
         r.count(phase + "_cases");
@@ -1224,6 +1226,15 @@ int main(int argc, char **argv)
   };
 
   bool exhaustive = true;
+  fprintf(stderr, "bases: %zu, phase-1 cases: %zu (setup %.1fs)\n", BASES.size(), cases.size(), now() - t_start);
+  if (getenv("C10_LIMIT")) {
+    size_t lim = strtoul(getenv("C10_LIMIT"), NULL, 10), stride = std::max<size_t>(1, cases.size() / std::max<size_t>(1, lim));
+    std::vector<Case> k;
+    for (size_t i = 0; i < cases.size(); i += stride) k.push_back(cases[i]);
+    cases.swap(k);
+    exhaustive = false;
+    total.notes.push_back("C10_LIMIT set: development run on a subset");
+  }
   if (!run_cases(cases, "phase1", total)) return 2;
   double t1 = now();
   fprintf(stderr, "phase1: %zu cases in %.1fs\n", cases.size(), t1 - t_start);
